@@ -24,10 +24,35 @@ def enumerate_faults(project):
             # double fault: one pattern has no match at all while another configured pattern only matches inside the
             # matches of an earlier one (a bare {version} pattern added to the file's entry)
             faults.append({"kind": "break+cover", "path": f["path"], "pat": len(f["patterns"]) - 1})
+    for f in project["files"]:
+        if f.get("bare") or f.get("glob_group"):
+            continue
+        for raw in f["patterns"]:
+            tail = cover_tail(raw)
+            if tail is not None:
+                # single fault: a further pattern that only ever matches inside the matches of an earlier pattern (the same
+                # text without its marker); bumpver refuses such a configuration ("possible greedy pattern") - wherever and
+                # whenever it notices, nothing may have been written
+                faults.append({"kind": "cover", "path": f["path"], "tail": tail})
+                break
     for sv in ("lower", "equal", "junk", "trailing"):
         faults.append({"kind": "reject", "sv": sv})
     faults.append({"kind": "nochange"})
     return faults
+
+
+def cover_tail(raw):
+    import re
+    m = re.match(r"@k\d+(.*)$", raw)
+    if not m:
+        return None
+    tail = m.group(1).lstrip(" ")
+    regions = [r for r in ("{version}", "{pep440_version}") if r in tail]
+    if len(regions) != 1 or tail.count(regions[0]) != 1 or tail == regions[0] or not tail.split(regions[0])[0].strip():
+        return None
+    if tail[0] in "#;[" or tail != tail.strip():
+        return None
+    return tail
 
 
 def apply_fault(w, project, fault):
@@ -118,14 +143,16 @@ class FaultPos:
         perms = [tuple(range(len(entries)))] + [p for p in perms if p != tuple(range(len(entries)))]
         perms = perms[:6]
 
-        def world_for(order_idx, cover_path=None):
+        def world_for(order_idx, cover_path=None, cover_pattern="{version}"):
             perm = perms[order_idx % len(perms)]
             p2 = dict(project)
             cfg = dict(project["cfg"])
             cfg["file_patterns"] = [entries[i] for i in perm]
             if cover_path is not None:
                 import fnmatch
-                cfg["file_patterns"] = [[k, (list(v) + ["{version}"]) if (k == cover_path or fnmatch.fnmatch(cover_path, k)) else v]
+                hit = [k for k, v in cfg["file_patterns"] if k == cover_path or fnmatch.fnmatch(cover_path, k)]
+                # (a file whose patterns are split over two entries gets the extra pattern in the last one only)
+                cfg["file_patterns"] = [[k, (list(v) + [cover_pattern]) if (hit and k == hit[-1]) else v]
                                         for k, v in cfg["file_patterns"]]
             p2["cfg"] = cfg
             w = simworld.World(p2)
@@ -150,7 +177,10 @@ class FaultPos:
             plans = case["faults"]
         for plan in plans:
             fault = plan["fault"]
-            w = world_for(plan["order"], fault["path"] if fault["kind"] == "break+cover" else None)
+            if fault["kind"] == "cover":
+                w = world_for(plan["order"], fault["path"], fault["tail"])
+            else:
+                w = world_for(plan["order"], fault["path"] if fault["kind"] == "break+cover" else None)
             extra = apply_fault(w, project, fault)
             if extra is None:
                 ctx.count("fault_not_applicable")
@@ -181,18 +211,23 @@ class FaultPos:
                 dry_failed = rd.exit_code != 0
                 if rd.changed:
                     ctx.violation("C13", "dry_changed_files", facts, "`update --dry` changed files under fault %s" % fault)
-                if rd.exit_code == 0:
+                if rd.exit_code == 0 and fault["kind"] != "cover":
                     ctx.violation("C06", "dry_missed_fault", facts,
                                   "`update --dry %s` exited 0 although %s" % (argv, fault))
             shim = fakevcs.VcsShim(w.repo) if w.repo else None
             res = invoker.invoke(w.dir, ["update"] + argv, clock, shim, fakevcs.HookShim({}))
             ctx.invocations += 1
             ctx.event(fault, plan["order"], plan["mode"], res.exit_code, invoker.digest_snapshot(res.after))
-            ctx.fault("fs_" + fault["kind"] if fault["kind"] in ("break", "remove", "break+cover") else "version_" + fault["kind"])
+            ctx.fault("fs_" + fault["kind"] if fault["kind"] in ("break", "remove", "break+cover") else
+                      ("config_cover" if fault["kind"] == "cover" else "version_" + fault["kind"]))
             ctx.nontriv((runner.short_hash(project["cfg"]["file_patterns"]), runner.short_hash(fault), plan["order"], plan["mode"]))
             ctx.transition((fault["kind"], plan["mode"], res.exit_code, project["vcs"] is not None))
             detail = "fault %s order %d mode %s argv %s -> exit %s (%s)" % (
                 fault, plan["order"], plan["mode"], argv, res.exit_code, res.exc or [m for _l, _n, m in res.logs][-2:])
+            if res.exit_code == 0 and fault["kind"] == "cover":
+                # accepting a shadowed pattern would be a legitimate design too; the statement only speaks of updates that fail
+                ctx.count("shadowed_pattern_accepted")
+                continue
             if res.exit_code == 0:
                 ctx.violation("C06", "fault_ignored", facts, "update succeeded although the rewrite cannot complete: " + detail)
             if res.changed:
